@@ -34,7 +34,8 @@ type actJ struct {
 }
 
 type linkJ struct {
-	Key  int      `json:"key"` // request header X<key>; -1 = no operator (SecAction)
+	Key  int      `json:"key"`            // request header X<key>; -1 = no operator (SecAction)
+	Body bool     `json:"body,omitempty"` // the link reads ARGS_POST:b<key> (urlencoded request body) instead of the header
 	Rm   []int    `json:"rm,omitempty"`
 	RmR  [][2]int `json:"rmr,omitempty"`  // ctl:ruleRemoveById=<lo>-<hi>
 	Eng  string   `json:"eng,omitempty"`  // ctl:ruleEngine=<On|DetectionOnly|Off> on this link
@@ -98,6 +99,10 @@ func actText(a actJ) string {
 		return "allow:" + a.Scope
 	case "deny":
 		return "deny"
+	case "drop":
+		return "drop"
+	case "redirect":
+		return "redirect:http://r.example/"
 	case "block":
 		return "block"
 	case "pass":
@@ -107,7 +112,26 @@ func actText(a actJ) string {
 }
 
 func isDisruptive(a actJ) bool {
-	return a.A == "allow" || a.A == "deny" || a.A == "block" || a.A == "pass"
+	switch a.A {
+	case "allow", "deny", "drop", "redirect", "block", "pass":
+		return true
+	}
+	return false
+}
+
+func hasBodyKeys(rules []ruleJ) bool { return len(bodyKeySet(rules)) > 0 }
+
+// bodyKeySet: which request bits are delivered through the urlencoded body
+func bodyKeySet(rules []ruleJ) map[int]bool {
+	m := map[int]bool{}
+	for _, r := range rules {
+		for _, l := range r.Links {
+			if l.Body && l.Key >= 0 {
+				m[l.Key] = true
+			}
+		}
+	}
+	return m
 }
 
 // writtenActs: the starter's flow/disruptive actions exactly as written (an explicit pass is put in front
@@ -127,6 +151,9 @@ func writtenActs(r ruleJ) []actJ {
 func confText(engine string, rules []ruleJ) string {
 	var b strings.Builder
 	b.WriteString("SecRuleEngine " + engine + "\n")
+	if hasBodyKeys(rules) {
+		b.WriteString("SecRequestBodyAccess On\n")
+	}
 	for _, r := range rules {
 		if r.Marker != "" {
 			b.WriteString("SecMarker " + r.Marker + "\n")
@@ -168,6 +195,8 @@ func confText(engine string, rules []ruleJ) string {
 			indent := strings.Repeat("  ", j)
 			if l.Key < 0 {
 				b.WriteString(indent + "SecAction \"" + strings.Join(acts, ",") + "\"\n")
+			} else if l.Body {
+				b.WriteString(indent + "SecRule ARGS_POST:b" + strconv.Itoa(l.Key) + " \"@streq 1\" \"" + strings.Join(acts, ",") + "\"\n")
 			} else {
 				b.WriteString(indent + "SecRule REQUEST_HEADERS:X" + strconv.Itoa(l.Key) + " \"@streq 1\" \"" + strings.Join(acts, ",") + "\"\n")
 			}
@@ -179,8 +208,9 @@ func confText(engine string, rules []ruleJ) string {
 // ---- running the implementation ----
 
 type engineUnderTest struct {
-	waf coraza.WAF
-	buf *bytes.Buffer
+	waf      coraza.WAF
+	buf      *bytes.Buffer
+	bodyKeys map[int]bool
 }
 
 func newEngine(engine string, rules []ruleJ) (*engineUnderTest, string, error) {
@@ -191,7 +221,7 @@ func newEngine(engine string, rules []ruleJ) (*engineUnderTest, string, error) {
 	if err != nil {
 		return nil, conf, err
 	}
-	return &engineUnderTest{waf: waf, buf: buf}, conf, nil
+	return &engineUnderTest{waf: waf, buf: buf, bodyKeys: bodyKeySet(rules)}, conf, nil
 }
 
 var (
@@ -236,10 +266,20 @@ func (e *engineUnderTest) runUpTo(req []bool, stop int) (o *obsJ, fail string) {
 	e.buf.Reset()
 	tx := e.waf.NewTransaction()
 	itx := tx.(*corazawaf.Transaction)
+	body := ""
 	for k, on := range req {
 		if on {
+			// a key read through the body by some link and through the header by another gets both
 			tx.AddRequestHeader("X"+strconv.Itoa(k), "1")
+			if e.bodyKeys[k] {
+				body += "b" + strconv.Itoa(k) + "=1&"
+			}
 		}
+	}
+	if len(e.bodyKeys) > 0 {
+		body += "z=0"
+		tx.AddRequestHeader("Content-Type", "application/x-www-form-urlencoded")
+		tx.AddRequestHeader("Content-Length", strconv.Itoa(len(body)))
 	}
 	o = &obsJ{Matched: [][]int{{}, {}, {}, {}, {}}}
 	seen := 0
@@ -269,6 +309,11 @@ func (e *engineUnderTest) runUpTo(req []bool, stop int) (o *obsJ, fail string) {
 	after(1)
 	if stop < 2 {
 		return finish()
+	}
+	if body != "" {
+		if _, _, err := tx.WriteRequestBody([]byte(body)); err != nil {
+			return o, "WriteRequestBody: " + err.Error()
+		}
 	}
 	if _, err := tx.ProcessRequestBody(); err != nil {
 		return o, "ProcessRequestBody: " + err.Error()
@@ -347,8 +392,8 @@ func actsTerm(acts []actJ, mi map[string]int) string {
 				sc = "ScRequest"
 			}
 			items[i] = "AAllow " + sc
-		case "deny":
-			items[i] = "ADeny"
+		case "deny", "drop", "redirect":
+			items[i] = "ADeny" // drop and redirect interrupt exactly like deny (tx.Interrupt)
 		}
 	}
 	return vh.List(items)
@@ -503,8 +548,29 @@ func optPair(p []int) string {
 	return fmt.Sprintf("(P %d %d)", p[0], p[1])
 }
 
+// modelReq: the match bits as the engine can see them. A body-delivered bit is invisible when the
+// request body was never processed, i.e. when the transaction was interrupted in phase 1
+// (ProcessRequestBody returns before the body processor); phase-1 rules never read body bits, so the
+// phase-1 outcome does not depend on this.
+func modelReq(c *caseJ) []bool {
+	if c.Obs == nil || c.Obs.Intr == nil || c.Obs.Intr[0] != 1 {
+		return c.Req
+	}
+	bk := bodyKeySet(c.Rules)
+	if len(bk) == 0 {
+		return c.Req
+	}
+	req := append([]bool{}, c.Req...)
+	for k := range req {
+		if bk[k] {
+			req[k] = false
+		}
+	}
+	return req
+}
+
 func caseTerm(rulesName string, c *caseJ) string {
-	return fmt.Sprintf("Case %s %s %s %s %s %s %s", modeTerm(c.Engine), rulesName, boolList(c.Req),
+	return fmt.Sprintf("Case %s %s %s %s %s %s %s", modeTerm(c.Engine), rulesName, boolList(modelReq(c)),
 		natLists(c.Obs.Evaluated), natLists(c.Obs.Matched), optPair(c.Obs.Intr), optPair(c.Obs.DIntr))
 }
 
@@ -600,8 +666,15 @@ func Run(cfg vh.Config) (*vh.Result, error) {
 	for si, set := range sets {
 		eng, conf, err := newEngine(set.Engine, set.Rules)
 		if err != nil {
-			// a rule set the parser rejects is a generator bug, not a finding
-			return nil, fmt.Errorf("rule set %d (%s) rejected: %v\n%s", si, set.Shape, err, conf)
+			// every generated configuration is valid SecLang (all of them compile on the unchanged
+			// tree): a rejection is reported and the run goes on, so semantic mismatches show as well
+			rej := &caseJ{Engine: set.Engine, Rules: set.Rules, Shape: set.Shape, Conf: conf}
+			if len(set.Reqs) > 0 {
+				rej.Req = set.Reqs[0]
+			}
+			res.OracleFailures = append(res.OracleFailures, vh.OracleFailure{Key: "c08-ruleset-rejected",
+				What: fmt.Sprintf("the parser rejects a valid configuration: %v", err), Case: rej})
+			continue
 		}
 		name := fmt.Sprintf("rs_%d", si)
 		configured, ckinds := configure(set.Rules)
